@@ -723,6 +723,7 @@ func runC10(c *fw.Ctx) {
 	}
 	c10HugeFileProbe(c)
 	c10MalformedKeyProbe(c)
+	genrunCoveredFields(c)
 	c10UpdateJSONKeys(c)
 	// (3) malformed JSON / text at every hand-written UnmarshalJSON / UnmarshalText (sub-check C10J); values that
 	// decode but cannot be encoded or hashed without a panic are flagged (they crash validation)
